@@ -95,7 +95,7 @@ func TestBounded_C12(t *testing.T) {
 	cases := 0
 	seeds := 12
 	if bTier() == "thorough" {
-		seeds = 80
+		seeds = bScale(80)
 	}
 	univ := 24
 	for seed := 1; seed <= seeds; seed++ {
@@ -227,7 +227,7 @@ func bCursorFaults(t *testing.T) {
 	steps := 0
 	seeds := 6
 	if bTier() == "thorough" {
-		seeds = 40
+		seeds = bScale(40)
 	}
 	for seed := 1; seed <= seeds; seed++ {
 		r := &bRand{uint64(seed)*0x9E6C63D0876A9A47 + 3}
@@ -419,7 +419,7 @@ func TestBounded_C03(t *testing.T) {
 	cases := 0
 	seeds := 30
 	if bTier() == "thorough" {
-		seeds = 300
+		seeds = bScale(300)
 	}
 	univ := 48
 	for seed := 1; seed <= seeds; seed++ {
